@@ -6,8 +6,8 @@ V = os.path.dirname(os.path.dirname(os.path.abspath(__file__)))
 props = [json.loads(l) for l in open(os.path.join(V, "properties.jsonl"))]
 known = [l for l in open(os.path.join(V, "known_findings.txt")) if l.startswith("known:")]
 out = []
-out.append("| id | title | theorems audited | level | known findings | seeded changes (caught / run) | notes |")
-out.append("|---|---|---|---|---|---|---|")
+out.append("| id | title | theorems audited | level | known findings | seeded changes (caught / run) | harmless rewrites (silent / run) | notes |")
+out.append("|---|---|---|---|---|---|---|---|")
 for p in props:
     pid = p["id"]
     mf = os.path.join(V, "manifest.d", pid + ".json")
@@ -15,14 +15,17 @@ for p in props:
     nob = len(json.load(open(of))) if os.path.exists(of) else 0
     lvl = "not built" if not os.path.exists(mf) else ("proof (partial)" if json.load(open(mf))["text"].startswith("PARTIAL") else "proof")
     kn = sum(1 for l in known if ("property=%s " % pid) in l)
-    caught = run = 0
+    caught = run = hsilent = hrun = 0
     for d in glob.glob(os.path.join(V, "seeded", pid + "-*")):
         m = json.load(open(os.path.join(d, "meta.json")))
         for q, r in m.get("checks_run", {}).items():
-            if q == pid:
+            if q == pid and m.get("kind") == "harmless":
+                hrun += 1
+                hsilent += 1 if (r.get("exit") == 0 and not r.get("detected")) else 0
+            elif q == pid:
                 run += 1
                 caught += 1 if r.get("detected") else 0
-    out.append("| %s | %s | %d | %s | %d | %d / %d | `design-notes/%s.md` |" % (pid, p["title"], nob, lvl, kn, caught, run, pid))
+    out.append("| %s | %s | %d | %s | %d | %d / %d | %d / %d | `design-notes/%s.md` |" % (pid, p["title"], nob, lvl, kn, caught, run, hsilent, hrun, pid))
 out.append("")
 out.append("What each check proves, what it trusts and which mutations it was tried against is written per property in")
 out.append("`design-notes/Cxx.md` (by the builder of that property) and summarised in `manifest.d/Cxx.json` → `MANIFEST.json`.")
